@@ -28,7 +28,9 @@ RULE = ('regular grids: origin in {0, few-decimal, full-precision random, large 
         '{plain, after add_extra_lower_and_upper_bin}; values on every kind of position (grid points, '
         'half-way points, neighbours of grid points at 1 ulp / 1e-10 / 1e-9 spacings, random); irregular '
         'sorted grids 2..60 points; interpolation: polynomial degree 0..2 and exp/sin manifolds, 1..4 '
-        'sources with shared or per-source values, call histories exercising the caches; a case is '
+        'sources with shared or per-source values, call histories exercising the caches; 2-3 interpolation '
+        'objects with different functions / grids built before first use and called in turn; two grids alive at '
+        'once; a case is '
         'non-trivial when it has >= 2 grid points and is distinct by hash of its inputs')
 TRUSTED = [
     'Coq 8.16.1 kernel incl. vm_compute (no native_compute)',
@@ -736,6 +738,212 @@ def run_interp(ctx, exe, cases):
                          dict(case, calls=calls), str(impl)[:600], str(model)[:600])
 
 
+# ------------------------------------------------------------------ several objects alive at once
+def _interp_objects(case):
+    """build ALL method objects of a multi-instance case before the first use"""
+    from skyllh.core.parameters import ParameterGrid
+    from skyllh.core.interpolate import (Linear1DGridManifoldInterpolationMethod as Lin,
+                                         Parabola1DGridManifoldInterpolationMethod as Par)
+    objs = []
+    for o in case['objs']:
+        arr = np.array([o['origin'] + i * o['delta'] for i in range(o['n'])], dtype=np.float64)
+        pg = ParameterGrid('p', arr.copy(), delta=o['delta'])
+        Cls = Lin if o['kind'] == 'L' else Par
+        objs.append({'spec': o, 'arr': arr, 'pg': pg, 'Cls': Cls,
+                     'dec': max(decimals_oracle(float(arr[0])), decimals_oracle(o['delta'])),
+                     'meth': Cls(make_func(o['fam'], o['c'], []), pg)})
+    return objs
+
+
+def gen_multi(rng):
+    """2-3 interpolation objects with different manifold functions (same or different grids, same or
+    mixed kinds), called in turn with the same / different state ids and the same / different cells"""
+    k = rng.choice([2, 2, 3])
+    same_grid = rng.random() < 0.7
+    kinds = rng.choice([['L'] * k, ['P'] * k, ['L', 'P', 'L'][:k]])
+    base = gen_interp(rng, 'L')
+    n_per = base['n_per']
+    objs = []
+    for j in range(k):
+        g = gen_interp(rng, kinds[j])
+        if same_grid or j == 0:
+            g['origin'], g['delta'], g['n'] = base['origin'], base['delta'], max(base['n'], 6)
+        else:
+            g['n'] = max(g['n'], 6)
+        if abs(g['origin']) > 1000 and g['fam'] == 1:
+            g['fam'], g['deg'] = 0, 2
+        objs.append({k2: g[k2] for k2 in ('kind', 'fam', 'deg', 'c', 'origin', 'delta', 'n')})
+    # steps: (object, state id, position in the object's own grid as (cell index, fraction) per source)
+    steps = []
+    ident = rng.randint(1, 4)
+    pos = None
+    nsrc = len(n_per)
+    for _ in range(rng.randint(4, 9)):
+        r = rng.random()
+        if r < 0.15:
+            ident += 1
+        if pos is None or r > 0.55:
+            m = 1 if (rng.random() < 0.4 or nsrc == 1) else nsrc
+            pos = [(rng.randint(1, 3), rng.choice([0.0, 0.5, rng.uniform(0.1, 0.9), rng.uniform(0.1, 0.9)]))
+                   for _ in range(m)]
+        order = list(range(k))
+        rng.shuffle(order)
+        for j in order[:rng.randint(2, k)]:
+            steps.append((j, ident, list(pos)))
+    return {'multi': True, 'objs': objs, 'n_per': n_per, 'steps': steps}
+
+
+def run_multi(ctx, exe, cases):
+    lines, metas = [], []
+    for case in cases:
+        ctx.case(case)
+        ctx.count('multi:%d-objects:%s' % (len(case['objs']), ''.join(o['kind'] for o in case['objs'])))
+        objs = _interp_objects(case)
+        n_per = case['n_per']
+        idx_src = [s for s, k in enumerate(n_per) for _ in range(k)]
+        idx_evt = [e for s, k in enumerate(n_per) for e in range(k)]
+        hist = [[] for _ in objs]           # per object: (ident, xs, impl result)
+        kept = []                           # (result copies, live result arrays) of earlier calls
+        for (j, ident, pos) in case['steps']:
+            ob = objs[j]
+            grid = [float(x) for x in ob['pg'].grid]
+            d = float(ob['pg'].delta)
+            xs = [grid[min(c, len(grid) - 3)] + f * d for (c, f) in pos]
+            pr = np.array([(x,) for x in xs], dtype=[('p', np.float64)])
+            snap = pr.tobytes()
+            try:
+                (vals, grads) = ob['meth'](tdm=StubTDM(n_per, ident), eventdata=None, params_recarray=pr)
+                res = ['Ok', [float(v) for v in vals], [float(v) for v in np.asarray(grads)[0]]]
+                kept.append((np.array(vals, copy=True), np.array(grads, copy=True), vals, grads))
+            except Exception as ex:
+                res = ['Err', exc_name(ex)]
+            if pr.tobytes() != snap:
+                ctx.violation(ob['Cls'].__name__ + '.__call__', 'argument-modified',
+                              'params_recarray was modified by the call', case=case)
+            hist[j].append((ident, xs, res))
+            ctx.count('multi:calls')
+        for (cv, cg, lv, lg) in kept:
+            if not (np.array_equal(cv, lv) and np.array_equal(cg, lg)):
+                ctx.violation('GridManifoldInterpolationMethod.__call__', 'earlier-result-changed',
+                              'arrays returned by an earlier call were changed by a later call', case=case)
+                break
+        # every call of every object equals the same call on its own fresh twin (built only now)
+        for j, ob in enumerate(objs):
+            o = ob['spec']
+            for (ident, xs, res) in hist[j]:
+                twin = ob['Cls'](make_func(o['fam'], o['c'], []), ob['pg'])
+                pr = np.array([(x,) for x in xs], dtype=[('p', np.float64)])
+                (v2, g2) = twin(tdm=StubTDM(n_per, ident), eventdata=None, params_recarray=pr)
+                want = ['Ok', [float(v) for v in v2], [float(v) for v in np.asarray(g2)[0]]]
+                sc = max([1.0] + [abs(v) for v in want[1]])
+                d = float(ob['pg'].delta)
+                ok = (res[0] == 'Ok' and len(res[1]) == len(want[1])
+                      and all(abs(a - b) <= 1e-14 * sc for a, b in zip(res[1], want[1]))
+                      and all(abs(a - b) <= 1e-14 * sc / d for a, b in zip(res[2], want[2])))
+                if not ok:
+                    ctx.violation(ob['Cls'].__name__ + '.__call__', 'object-differs-from-its-fresh-twin',
+                                  f'object #{j} of {len(objs)} alive at once returns numbers that its own fresh twin '
+                                  'does not (state shared between objects?)',
+                                  case=dict(case, object=j, state_id=ident, xs=xs), impl=str(res)[:300], model=str(want)[:300])
+            # model: this object's own call history
+            t = [o['kind'], str(ob['dec']), hx(o['delta']), str(len(ob['arr']))] + [hx(a) for a in ob['arr']]
+            t += [str(o['fam'])] + [hx(v) for v in o['c']]
+            t += [str(len(idx_src))] + [str(v) for pq in zip(idx_src, idx_evt) for v in pq]
+            t += [str(len(hist[j]))]
+            for (ident, xs, _) in hist[j]:
+                t += [str(ident), str(len(xs))] + [hx(x) for x in xs]
+            lines.append(' '.join(t))
+            metas.append((case, j, [r for (_, _, r) in hist[j]], float(ob['pg'].delta)))
+    if exe is None or not lines:
+        return
+    outs = common.ocaml_run(exe, lines)
+    for (case, j, impl, delta), out in zip(metas, outs):
+        ctx.corr_cases += 1
+        model = _parse_calls(out)
+        if not _calls_agree(impl, model, delta):
+            ctx.disagree('GridManifoldInterpolationMethod/several-objects', dict(case, object=j),
+                         str(impl)[:600], str(model)[:600])
+
+
+def _parse_calls(out):
+    t = out.split()
+    k, model = 0, []
+    try:
+        while k < len(t):
+            if t[k] == 'Ok':
+                nv = int(t[k + 1])
+                model.append(['Ok', [unhex(x) for x in t[k + 2:k + 2 + nv]],
+                              [unhex(x) for x in t[k + 2 + nv:k + 2 + 2 * nv]]])
+                k += 2 + 2 * nv
+            else:
+                model.append(['Err', t[k + 1]])
+                k += 2
+    except Exception:
+        model = [['unparsed', out[:200]]]
+    return model
+
+
+def _calls_agree(impl, model, delta):
+    if len(model) != len(impl):
+        return False
+    for a, b in zip(impl, model):
+        if a[0] != b[0]:
+            return False
+        if a[0] == 'Err':
+            if a[1] != b[1]:
+                return False
+            continue
+        sc = max([1.0] + [abs(v) for v in a[1]])
+        if len(a[1]) != len(b[1]) or len(a[2]) != len(b[2]):
+            return False
+        if not all(abs(x - y) <= 1e-11 * sc for x, y in zip(a[1], b[1])):
+            return False
+        if not all(abs(x - y) <= 1e-11 * sc / min(1.0, delta) ** 2 for x, y in zip(a[2], b[2])):
+            return False
+    return True
+
+
+def run_grid_interleave(ctx, cases):
+    """two ParameterGrid objects alive at once: rounding on one is unaffected by rounding on / extending /
+    copying the other, repeated calls give the same bits, array arguments are not modified"""
+    def rounds(g, v):
+        return [[bits(x) for x in f(v)] for f in (g.round_to_nearest_grid_point, g.round_to_lower_grid_point,
+                                                  g.round_to_upper_grid_point)]
+    for ca, cb in zip(cases[0::2], cases[1::2]):
+        ca, cb = dict(ca, ext=False), dict(cb, ext=False)
+        ga, arr_a, _, _ = build_regular(ca)
+        gb, arr_b, _, _ = build_regular(cb)
+        if isinstance(ga, str) or isinstance(gb, str) or len(ga.grid) < 2 or len(gb.grid) < 2:
+            continue
+        ctx.count('grid_interleave')
+        rng = __import__('random').Random(ca['seed'] + 7)
+        va = np.array([rng.uniform(float(ga.grid[0]), float(ga.grid[-1])) for _ in range(8)] + [float(x) for x in ga.grid[:4]])
+        vb = np.array([rng.uniform(float(gb.grid[0]), float(gb.grid[-1])) for _ in range(8)] + [float(x) for x in gb.grid[:4]])
+        snap_a = va.tobytes()
+        desc_a = (bits(ga.lower_bound), bits(ga.delta), ga.decimals, [bits(x) for x in ga.grid])
+        r1 = rounds(ga, va)
+        rounds(gb, vb)
+        gb.add_extra_lower_and_upper_bin()
+        rounds(gb, vb)
+        gc = ga.copy()
+        gc.add_extra_lower_and_upper_bin()
+        r2 = rounds(ga, va)
+        r3 = rounds(ga, va)
+        twin, _, _, _ = build_regular(ca)
+        r4 = rounds(twin, va)
+        desc_a2 = (bits(ga.lower_bound), bits(ga.delta), ga.decimals, [bits(x) for x in ga.grid])
+        if not (r1 == r2 == r3 == r4) or desc_a != desc_a2:
+            ctx.violation(SITE_PG, 'object-differs-from-its-fresh-twin',
+                          'rounding on a grid changed after using / extending another grid or its copy',
+                          case={'a': ca, 'b': cb})
+        if va.tobytes() != snap_a:
+            ctx.violation(SITE_PG, 'argument-modified', 'the value array was modified by a rounding call',
+                          case={'a': ca, 'b': cb})
+        if len(gc.grid) != len(ga.grid) + 2:
+            ctx.violation('ParameterGrid.copy', 'copy-not-independent', 'extension of the copy has the wrong size',
+                          case={'a': ca})
+
+
 # ------------------------------------------------------------------ PDFSet lookup by rounded grid values
 def run_pdfset_lookup(ctx, cases):
     """make_dict_hash of the rounded value finds the entry registered for the grid member"""
@@ -796,6 +1004,10 @@ def run(ctx):
     itp = [gen_interp(rng, k) for k in ('L', 'P') for _ in range(ctx.budget(40, 400))]
     run_interp(ctx, exe, itp)
     ctx.sample({'interp': {k: itp[0][k] for k in ('kind', 'fam', 'c', 'origin', 'delta', 'n', 'n_per')}})
+    multi = [gen_multi(rng) for _ in range(ctx.budget(30, 300))]
+    run_multi(ctx, exe, multi)
+    ctx.sample({'multi': {'objs': [(o['kind'], o['fam'], o['c']) for o in multi[0]['objs']], 'steps': multi[0]['steps'][:4]}})
+    run_grid_interleave(ctx, reg[8:8 + ctx.budget(40, 300)])
     run_pdfset_lookup(ctx, reg[:ctx.budget(40, 300)])
     if ctx.model_ok:
         small = [c for c in reg if c['n'] <= 11][:ctx.budget(12, 60)]
@@ -827,6 +1039,10 @@ def replay(ctx, rp):
         case = {'grid': c.get('irr') or c['grid'], 'kind': c.get('kind', 'replay'), 'ext': bool(c.get('ext')) and 'irr' not in c,
                 'seed': c.get('seed', 1)}
         return run_irregular(ctx, exe, [case])
+    if c.get('multi'):
+        case = {'multi': True, 'objs': c['objs'], 'n_per': c['n_per'],
+                'steps': [(j, i, [tuple(p) for p in pos]) for (j, i, pos) in c['steps']]}
+        return run_multi(ctx, exe, [case])
     if c.get('kind') in ('L', 'P'):
         return run_interp(ctx, exe, [c])
     if 'origin' in c:
